@@ -411,13 +411,17 @@ type ProcCall struct {
 }
 
 type ProcCase struct {
-	Signal     string     `json:"signal"`
-	Goroutines int        `json:"goroutines"`
-	Calls      []ProcCall `json:"calls"`
+	DeclaresReadOnly bool       `json:"declares_mutates_data_false,omitempty"`
+	Signal           string     `json:"signal"`
+	Goroutines       int        `json:"goroutines"`
+	Calls            []ProcCall `json:"calls"`
 }
 
 func genProc(rng *rand.Rand) ProcCase {
 	pc := ProcCase{Signal: expkit.Signals[rng.Intn(3)].String(), Goroutines: 1 + rng.Intn(3)}
+	// a processor that declares it does not mutate its input works on a copy and forwards that copy (a sampler, a
+	// filter): what it forwards is what counts as outgoing
+	pc.DeclaresReadOnly = rng.Intn(2) == 0
 	acts := []string{"keep", "drop-some", "drop-all", "add", "fail", "skip"}
 	if rng.Intn(3) == 0 { // histories with a single behaviour
 		acts = []string{acts[rng.Intn(len(acts))]}
@@ -485,10 +489,22 @@ func runProc(c *driver.Ctx, pc ProcCase) {
 	}
 	var consume func(p expkit.Payload) error
 	ctx := context.Background()
+	var procOpts []processorhelper.Option
+	if pc.DeclaresReadOnly {
+		procOpts = append(procOpts, processorhelper.WithCapabilities(consumer.Capabilities{MutatesData: false}))
+		c.Observe("processors_declaring_mutates_data_false", 1)
+	}
 	switch sig {
 	case expkit.Logs:
 		next, _ := consumer.NewLogs(func(_ context.Context, ld plog.Logs) error { return sink(expkit.FromLogs(ld)) })
-		p, err := processorhelper.NewLogs(ctx, set, struct{}{}, next, func(_ context.Context, ld plog.Logs) (plog.Logs, error) { return ld, process(expkit.FromLogs(ld)) })
+		p, err := processorhelper.NewLogs(ctx, set, struct{}{}, next, func(_ context.Context, ld plog.Logs) (plog.Logs, error) {
+			if pc.DeclaresReadOnly {
+				cp := plog.NewLogs()
+				ld.CopyTo(cp)
+				ld = cp
+			}
+			return ld, process(expkit.FromLogs(ld))
+		}, procOpts...)
 		if err != nil {
 			c.Note("processorhelper.NewLogs: %v", err)
 			return
@@ -497,8 +513,13 @@ func runProc(c *driver.Ctx, pc ProcCase) {
 	case expkit.Traces:
 		next, _ := consumer.NewTraces(func(_ context.Context, td ptrace.Traces) error { return sink(expkit.FromTraces(td)) })
 		p, err := processorhelper.NewTraces(ctx, set, struct{}{}, next, func(_ context.Context, td ptrace.Traces) (ptrace.Traces, error) {
+			if pc.DeclaresReadOnly {
+				cp := ptrace.NewTraces()
+				td.CopyTo(cp)
+				td = cp
+			}
 			return td, process(expkit.FromTraces(td))
-		})
+		}, procOpts...)
 		if err != nil {
 			c.Note("processorhelper.NewTraces: %v", err)
 			return
@@ -507,8 +528,13 @@ func runProc(c *driver.Ctx, pc ProcCase) {
 	default:
 		next, _ := consumer.NewMetrics(func(_ context.Context, md pmetric.Metrics) error { return sink(expkit.FromMetrics(md)) })
 		p, err := processorhelper.NewMetrics(ctx, set, struct{}{}, next, func(_ context.Context, md pmetric.Metrics) (pmetric.Metrics, error) {
+			if pc.DeclaresReadOnly {
+				cp := pmetric.NewMetrics()
+				md.CopyTo(cp)
+				md = cp
+			}
 			return md, process(expkit.FromMetrics(md))
-		})
+		}, procOpts...)
 		if err != nil {
 			c.Note("processorhelper.NewMetrics: %v", err)
 			return
